@@ -51,8 +51,8 @@ var dropPaths = []string{
 
 func genC11(t *rapid.T) C11Case {
 	c := C11Case{Route: rapid.SampledFrom([]string{"create", "lifecycle", "update", "update", "release", "recharge"}).Draw(t, "route")}
-	c.Mcc = rapid.SampledFrom([]string{"208", "208", "208", "", "2", "20", "2081", "abc", "1\u00e9", "20\uff18", "\u00e9\u00e9\u00e9"}).Draw(t, "mcc")
-	c.Mnc = rapid.SampledFrom([]string{"93", "93", "930", "", "9", "9300", "x", "\u00e9", "9\u00e9", "\uff19\uff13"}).Draw(t, "mnc")
+	c.Mcc = rapid.SampledFrom([]string{"208", "208", "208", "", "2", "20", "2081", "abc", "1\u00e9", "20\uff18", "\u00e9\u00e9\u00e9", "\uff12", "\u0662" + "0", "2" + "\u0660"}).Draw(t, "mcc")
+	c.Mnc = rapid.SampledFrom([]string{"93", "93", "930", "", "9", "9300", "x", "\u00e9", "9\u00e9", "\uff19\uff13", "\u0669", "\uff19", "9" + "\u0663"}).Draw(t, "mnc")
 	c.NMUU = rapid.SampledFrom([]int{0, 0, 1, 2}).Draw(t, "nMuu")
 	c.NCont = rapid.SampledFrom([]int{0, 0, 1, 2}).Draw(t, "nCont")
 	c.PDU = rapid.Bool().Draw(t, "pdu")
